@@ -1,7 +1,7 @@
 (* Proofs about Model/JsonEnc.v: what the encoded text of a string / value / event consists of (no newline),
    one line per event, the decoder reads back every encoded string (round trip), injectivity, independence of
    the insertion order of maps.  Statements are re-exported by Props/C10.v, C06.v, C14.v. *)
-From Coq Require Import Ascii String List Bool Arith NArith ZArith Lia Permutation.
+From Coq Require Import Ascii String List Bool Arith NArith ZArith Lia Permutation Sorted.
 Import ListNotations.
 From AM Require Import Lib.Bytes Model.JsonEnc Model.Framing Proofs.FramingLemmas.
 Open Scope list_scope.
@@ -266,9 +266,6 @@ Qed.
 
 (* ================= which bytes the text of a string consists of ================= *)
 
-(* from 0x20 on, and never a raw  &  <  >  *)
-Definition out_byte_ok (c : ascii) : bool :=
-  (0x20 <=? nb c) && negb (nb c =? 0x26) && negb (nb c =? 0x3C) && negb (nb c =? 0x3E).
 
 Lemma esc_ascii_out_all :
   forallb (fun b => if nb b <? 0x80 then forallb out_byte_ok (esc_ascii b) else true) all_bytes = true.
@@ -328,7 +325,6 @@ Proof. exists (enc_body s). reflexivity. Qed.
 
 (* ================= reading a string literal back ================= *)
 
-Definition plainb (c : ascii) : bool := (0x20 <=? nb c) && negb (nb c =? 0x22) && negb (nb c =? 0x5C).
 
 Lemma pre_pre a b x : pre a (pre b x) = pre (a ++ b) x.
 Proof. destruct x as [[d rest]|]; cbn; [rewrite app_assoc|]; reflexivity. Qed.
@@ -669,4 +665,172 @@ Proof.
   intros Hes. unfold records. rewrite <- (app_nil_r (concat (map enc_line es))).
   rewrite (lines_split es [] Hes (fun H => H)). cbn [fst]. rewrite map_map.
   apply map_ext. intros e. apply strip1_terminate.
+Qed.
+
+(* ---------- the views of the models' records always meet [event_ok] ---------- *)
+
+Lemma opt_jkv_ok k o : forallb (fun kv => txt_ok (snd kv)) (opt_jkv k o) = true.
+Proof. destruct o; reflexivity. Qed.
+
+Lemma login_view_ok aid t e : time_text_ok t = true -> event_ok (login_view aid t e) = true.
+Proof.
+  intros Ht. unfold event_ok, login_view. cbn [je_logged_at je_meta_extra je_src_extra je_data].
+  rewrite Ht, opt_jkv_ok, forallb_app, !opt_jkv_ok. cbn [andb].
+  destruct (SshdProc.ev_data e); [reflexivity|apply jstr_map_ok].
+Qed.
+
+Lemma object_json_ok o : txt_ok (object_json o) = true.
+Proof.
+  unfold object_json. rewrite txt_ok_obj, !forallb_app.
+  rewrite !omit_if_ok by reflexivity. reflexivity.
+Qed.
+
+Lemma action_view_ok t a : time_text_ok t = true -> event_ok (action_view t a) = true.
+Proof.
+  intros Ht. unfold event_ok, action_view. cbn [je_logged_at je_meta_extra je_src_extra je_data].
+  rewrite Ht. cbn [andb]. rewrite andb_true_r. apply andb_true_iff. split.
+  - rewrite forallb_app. cbn [forallb snd txt_ok]. rewrite object_json_ok. cbn [andb].
+    destruct (ToEvent.ua_args a) as [args|]; [|reflexivity]. cbn [forallb snd]. rewrite txt_ok_arr.
+    rewrite andb_true_r. apply forallb_forall. intros v Hv. apply in_map_iff in Hv. destruct Hv as (x & <- & _). reflexivity.
+  - apply forallb_forall. intros kv Hkv. apply in_map_iff in Hkv. destruct Hkv as (x & <- & _). reflexivity.
+Qed.
+
+(* ================= maps: the order of insertion does not show ================= *)
+
+Lemma str_ltb_irrefl a : str_ltb a a = false.
+Proof. induction a as [|x a IH]; [reflexivity|]. cbn [str_ltb]. rewrite N.ltb_irrefl. exact IH. Qed.
+
+Lemma str_ltb_trans a : forall b c, str_ltb a b = true -> str_ltb b c = true -> str_ltb a c = true.
+Proof.
+  induction a as [|x a IH]; intros [|y b] [|z c] H1 H2; try discriminate; try reflexivity.
+  cbn [str_ltb] in *.
+  destruct (nb x <? nb y) eqn:Exy.
+  - apply N.ltb_lt in Exy. destruct (nb y <? nb z) eqn:Eyz.
+    + apply N.ltb_lt in Eyz. assert (nb x <? nb z = true) as -> by (apply N.ltb_lt; lia). reflexivity.
+    + destruct (nb z <? nb y) eqn:Ezy; [discriminate|]. apply N.ltb_ge in Eyz, Ezy.
+      assert (nb x <? nb z = true) as -> by (apply N.ltb_lt; lia). reflexivity.
+  - destruct (nb y <? nb x) eqn:Eyx; [discriminate|]. apply N.ltb_ge in Exy, Eyx.
+    assert (nb x = nb y) as Exy' by lia. rewrite Exy'.
+    destruct (nb y <? nb z); [reflexivity|]. destruct (nb z <? nb y); [discriminate|]. exact (IH _ _ H1 H2).
+Qed.
+
+Lemma str_ltb_total a : forall b, a <> b -> str_ltb a b = true \/ str_ltb b a = true.
+Proof.
+  induction a as [|x a IH]; intros [|y b] Hne; try (left; reflexivity); try (right; reflexivity); [exfalso; apply Hne; reflexivity|].
+  cbn [str_ltb].
+  destruct (nb x <? nb y) eqn:Exy; [left; reflexivity|].
+  destruct (nb y <? nb x) eqn:Eyx; [right; reflexivity|].
+  apply N.ltb_ge in Exy, Eyx. assert (x = y) as -> by (apply nb_inj; lia).
+  apply IH. intros ->. apply Hne. reflexivity.
+Qed.
+
+Lemma str_ltb_asym a b : str_ltb a b = true -> str_ltb b a = true -> False.
+Proof. intros H1 H2. pose proof (str_ltb_trans _ _ _ H1 H2) as H. rewrite str_ltb_irrefl in H. discriminate H. Qed.
+
+Section SortedMaps.
+Context {V : Type}.
+
+Lemma insert_kv_in k (v : V) m x : In x (insert_kv k v m) <-> x = (k, v) \/ In x m.
+Proof.
+  split; intros H.
+  - apply (Permutation_in _ (insert_kv_perm k v m)) in H. destruct H as [H | H]; [left; symmetry; exact H|right; exact H].
+  - apply (Permutation_in _ (Permutation_sym (insert_kv_perm k v m))). destruct H as [-> | H]; [left; reflexivity|right; exact H].
+Qed.
+
+Lemma insert_kv_sorted k (v : V) m : StronglySorted klt m -> ~ In k (map fst m) ->
+  StronglySorted klt (insert_kv k v m).
+Proof.
+  induction m as [|[k' v'] m IH]; intros Hs Hk.
+  - cbn. constructor; constructor.
+  - cbn [insert_kv]. inversion Hs as [|a l Hl Ha]; subst.
+    destruct (str_ltb k k') eqn:E.
+    + constructor; [exact Hs|]. constructor; [exact E|].
+      rewrite Forall_forall in *. intros x Hx. unfold klt in *. cbn [fst] in *.
+      eapply str_ltb_trans; [exact E|apply (Ha x Hx)].
+    + constructor.
+      * apply IH; [exact Hl|]. intros H. apply Hk. right. exact H.
+      * rewrite Forall_forall in *. intros x Hx. apply insert_kv_in in Hx. destruct Hx as [-> | Hx]; [|apply Ha; exact Hx].
+        unfold klt. cbn [fst]. destruct (str_ltb_total k' k) as [H | H]; [|exact H|rewrite H in E; discriminate E].
+        intros ->. apply Hk. left. reflexivity.
+Qed.
+
+Lemma sort_kv_sorted (m : list (str * V)) : NoDup (map fst m) -> StronglySorted klt (sort_kv m).
+Proof.
+  induction m as [|[k v] m IH]; intros Hnd; [constructor|].
+  cbn [map fst] in Hnd. inversion Hnd as [|a l Hni Hnd']; subst.
+  unfold sort_kv in *. cbn [fold_right fst snd]. apply insert_kv_sorted; [apply IH; exact Hnd'|].
+  intros H. apply Hni. apply in_map_iff in H. destruct H as (x & <- & Hx). apply in_map.
+  eapply Permutation_in; [apply sort_kv_perm|exact Hx].
+Qed.
+
+Lemma sorted_perm_eq (l1 : list (str * V)) : forall l2,
+  StronglySorted klt l1 -> StronglySorted klt l2 -> Permutation l1 l2 -> l1 = l2.
+Proof.
+  induction l1 as [|x l1 IH]; intros l2 H1 H2 P.
+  - apply Permutation_nil in P. symmetry. exact P.
+  - destruct l2 as [|y l2]; [apply Permutation_sym, Permutation_nil in P; discriminate P|].
+    inversion H1 as [|a l Hl1 Hx]; subst. inversion H2 as [|a l Hl2 Hy]; subst.
+    assert (x = y) as ->.
+    { assert (In x (y :: l2)) as Ix by (eapply Permutation_in; [exact P|left; reflexivity]).
+      assert (In y (x :: l1)) as Iy by (eapply Permutation_in; [apply Permutation_sym; exact P|left; reflexivity]).
+      destruct Ix as [E | Ix]; [symmetry; exact E|]. destruct Iy as [E | Iy]; [exact E|].
+      rewrite Forall_forall in Hx, Hy. exfalso. exact (str_ltb_asym _ _ (Hx y Iy) (Hy x Ix)). }
+    f_equal. apply IH; [exact Hl1|exact Hl2|]. eapply Permutation_cons_inv. exact P.
+Qed.
+
+(* a Go map has distinct keys; whatever order its entries are listed in, the same members are written in the same order *)
+Theorem sort_kv_order_independent (m1 m2 : list (str * V)) :
+  NoDup (map fst m1) -> Permutation m1 m2 -> sort_kv m1 = sort_kv m2.
+Proof.
+  intros Hnd P. apply sorted_perm_eq.
+  - apply sort_kv_sorted. exact Hnd.
+  - apply sort_kv_sorted. eapply Permutation_NoDup; [apply Permutation_map; exact P|exact Hnd].
+  - eapply Permutation_trans; [apply sort_kv_perm|]. eapply Permutation_trans; [exact P|]. apply Permutation_sym, sort_kv_perm.
+Qed.
+
+(* and the keys come out in strictly increasing byte order *)
+Theorem sort_kv_keys_increasing (m : list (str * V)) : NoDup (map fst m) -> StronglySorted klt (sort_kv m).
+Proof. exact (sort_kv_sorted m). Qed.
+End SortedMaps.
+
+Theorem jmap_order_independent m1 m2 : NoDup (map fst m1) -> Permutation m1 m2 -> enc_value (jmap m1) = enc_value (jmap m2).
+Proof. intros Hnd P. unfold jmap. rewrite (sort_kv_order_independent m1 m2 Hnd P). reflexivity. Qed.
+
+Theorem jstr_map_order_independent m1 m2 : NoDup (map fst m1) -> Permutation m1 m2 ->
+  enc_value (jstr_map m1) = enc_value (jstr_map m2).
+Proof.
+  intros Hnd P. unfold jstr_map. apply jmap_order_independent.
+  - rewrite map_map. cbn [fst]. exact Hnd.
+  - apply Permutation_map. exact P.
+Qed.
+
+(* ---------- events: the line depends on the maps' contents only ---------- *)
+
+
+Lemma is_nil_perm {A} (l1 l2 : list A) : Permutation l1 l2 -> is_nil l1 = is_nil l2.
+Proof.
+  intros P. destruct l1, l2; try reflexivity.
+  - apply Permutation_nil in P. discriminate P.
+  - apply Permutation_sym, Permutation_nil in P. discriminate P.
+Qed.
+
+Lemma jmap_eq m1 m2 : NoDup (map fst m1) -> Permutation m1 m2 -> jmap m1 = jmap m2.
+Proof. intros Hnd P. unfold jmap. rewrite (sort_kv_order_independent m1 m2 Hnd P). reflexivity. Qed.
+
+Lemma jstr_map_eq m1 m2 : NoDup (map fst m1) -> Permutation m1 m2 -> jstr_map m1 = jstr_map m2.
+Proof.
+  intros Hnd P. unfold jstr_map. apply jmap_eq.
+  - rewrite map_map. cbn [fst]. exact Hnd.
+  - apply Permutation_map. exact P.
+Qed.
+
+Theorem enc_line_same_event e1 e2 : keys_distinct e1 -> same_event e1 e2 -> enc_line e1 = enc_line e2.
+Proof.
+  intros (D1 & D2 & D3 & D4) (E1 & E2 & E3 & E4 & E5 & E6 & E7 & E8 & P1 & P2 & P3 & P4).
+  unfold enc_line, enc_event, event_json.
+  rewrite E1, E2, E3, E4, E5, E6, E7, E8.
+  rewrite (is_nil_perm _ _ P1), (is_nil_perm _ _ P2), (is_nil_perm _ _ P3).
+  rewrite (jmap_eq _ _ D1 P1), (jmap_eq _ _ D2 P2), (jstr_map_eq _ _ D3 P3).
+  destruct (je_subjects e1) as [m1|], (je_subjects e2) as [m2|]; try contradiction; [|reflexivity].
+  rewrite (jstr_map_eq _ _ D4 P4). reflexivity.
 Qed.
